@@ -371,10 +371,16 @@ func (m *MemoryBackend) Publish(client *Client, msg *packet.Message, ack Ack) er
 					return ErrQueueFull
 				}
 			} else {
-				// wait for room since client is online
+				// add directly if there is room, otherwise wait for room
+				// since client is online (a client that is closing may still
+				// have room, the message must then not be dropped)
 				select {
 				case queue(sess) <- msg:
-				case <-sess.activeClient.Closing():
+				default:
+					select {
+					case queue(sess) <- msg:
+					case <-sess.activeClient.Closing():
+					}
 				}
 			}
 		}
@@ -391,10 +397,16 @@ func (m *MemoryBackend) Publish(client *Client, msg *packet.Message, ack Ack) er
 					return ErrQueueFull
 				}
 			} else if sess.activeClient != nil {
-				// wait for room since client is online
+				// add directly if there is room, otherwise wait for room
+				// since client is online (a client that is closing may still
+				// have room, the message must then not be dropped)
 				select {
 				case queue(sess) <- msg:
-				case <-sess.activeClient.Closing():
+				default:
+					select {
+					case queue(sess) <- msg:
+					case <-sess.activeClient.Closing():
+					}
 				}
 			} else {
 				// ignore message if offline queue is full
